@@ -31,7 +31,7 @@ RULE = (
     "file set / entry point; distinct = distinct (world digest, op digest, history-prefix digest)."
 )
 TIERS = {
-    "quick": {"runs": 60, "budget_s": 45, "min_runs": 4, "run_timeout_s": 300},
+    "quick": {"runs": 80, "budget_s": 70, "min_runs": 4, "run_timeout_s": 300},
     "thorough": {"runs": 6000, "budget_s": 800, "min_runs": 40, "run_timeout_s": 600},
 }
 COMPONENTS_REAL = [
@@ -49,7 +49,7 @@ def gen_history(rng: Rng, world: dict) -> list[dict]:
     cwd = world["cwd"]
     rels = [os.path.relpath(f, cwd) for f in files]
     ops: list[dict] = []
-    n = rng.randint(5, 11)
+    n = rng.randint(4, 9)
     distinct: list[dict] = []
     whole_at = rng.randrange(n) if rng.chance(0.6) else -1
     for step in range(n):
@@ -188,18 +188,22 @@ def run_one(ctx: Any, seed: int, tier: str, replay: Optional[dict] = None) -> di
         history = replay["history"]
         hs_h, hs_f = replay["hashseeds"]
         warm = replay.get("warm", WARM)
+        fresh_cold = replay.get("fresh_cold", True)
     else:
-        world = gen_fix_world(rng.fork("world"), {"kinds": KINDS + ["cte_multi", "cte_multi", "clean", "rulecase", "rulecase", "rulecase"], "min_files": 3, "max_files": 7, "bait": 0.3,
+        world = gen_fix_world(rng.fork("world"), {"kinds": KINDS + ["cte_multi", "cte_multi", "cte_multi", "cte_multi", "clean", "rulecase", "rulecase", "rulecase", "tmpl_undef", "tmpl_undef", "jinja_fixable"], "min_files": 3, "max_files": 7, "bait": 0.3, "jinja_loader": 0.5,
                                                    "size_limits": rng.fork("f").chance(0.2)})
         history = gen_history(rng.fork("history"), world)
-        pool = ctx.hashseeds(3)
+        pool = ctx.hashseeds(6)
         hr = rng.fork("hashseed")
         hs_h = hr.choice(pool)
         hs_f = hr.choice([h for h in pool if h != hs_h])
         warm = WARM if hr.chance(0.7) else ""
+        fresh_cold = hr.chance(0.35)
     cl = ctx.cluster
     zh = cl.zygote(hs_h, warm)
-    zf = cl.zygote(hs_f, "")  # fresh side is always a cold process
+    # fresh side: a new process per op; in a third of the runs a COLD one (nothing but `import sqlfluff`
+    # done: dialect/rule modules get imported by the op itself), otherwise imports pre-done (3x cheaper)
+    zf = cl.zygote(hs_f, "" if fresh_cold else WARM)
     za = cl.zygote(hs_f, WARM)  # single-file "alone" lints: fresh fork, imports pre-done
     root = cl.new_root("C32-%d" % seed)
     initial = world_tree(world)
@@ -315,7 +319,7 @@ def run_one(ctx: Any, seed: int, tier: str, replay: Optional[dict] = None) -> di
                 recs = sorted(multi, key=lambda r_: r_["filepath"])
                 start = (seed + opi) % len(recs)
                 todo = [recs[(start + j) % len(recs)] for j in range(len(recs))]
-                fresh_budget = 3  # new single-file processes per op (results are cached per file for the run)
+                fresh_budget = 2  # new single-file processes per op (results are cached per file for the run)
                 for pickf in todo:
                     akey = "alone:" + pickf["filepath"]
                     if akey not in fresh_cache:
@@ -354,7 +358,7 @@ def run_one(ctx: Any, seed: int, tier: str, replay: Optional[dict] = None) -> di
         samples.append({"files": {k2: v.get("kind") for k2, v in world["meta"].items()}, "root_config": world["cfg"]["root_core"], "nested": world["cfg"]["nested"],
                         "history": history, "hashseeds": [hs_h, hs_f]})
         for v in violations:
-            v["replay"] = {"world": world, "history": history, "hashseeds": [hs_h, hs_f], "warm": warm, "tier": tier}
+            v["replay"] = {"world": world, "history": history, "hashseeds": [hs_h, hs_f], "warm": warm, "fresh_cold": fresh_cold, "tier": tier}
     finally:
         if node is not None:
             node.close()
